@@ -160,13 +160,25 @@ def build_driver(force=False):
     return True
 
 
+def _big_stack():
+    """the extracted model recurses on the system stack (non-tail-recursive list functions of the
+    standard extraction): give the driver as much as the hard limit allows"""
+    import resource
+    try:
+        soft, hard = resource.getrlimit(resource.RLIMIT_STACK)
+        want = hard if hard != resource.RLIM_INFINITY else resource.RLIM_INFINITY
+        resource.setrlimit(resource.RLIMIT_STACK, (want, hard))
+    except Exception:
+        pass
+
+
 def run_driver(requests, shards=1):
     """Send the request lines to the extracted model, return the result lines."""
     if not requests:
         return []
     if shards <= 1 or len(requests) < 2000:
         p = subprocess.run([DRIVER], input='\n'.join(requests) + '\n', text=True,
-                           stdout=subprocess.PIPE, stderr=subprocess.PIPE)
+                           stdout=subprocess.PIPE, stderr=subprocess.PIPE, preexec_fn=_big_stack)
         if p.returncode != 0:
             raise BuildError('ppdriver', p.stderr)
         out = p.stdout.split('\n')
@@ -186,7 +198,7 @@ def run_driver(requests, shards=1):
         if not chunk:
             continue
         pr = subprocess.Popen([DRIVER], stdin=subprocess.PIPE, stdout=subprocess.PIPE,
-                              stderr=subprocess.PIPE, text=True)
+                              stderr=subprocess.PIPE, text=True, preexec_fn=_big_stack)
         procs.append((pr, chunk))
     import threading
     results = [None] * len(procs)
